@@ -146,13 +146,18 @@ func run(c *mon.Ctx) {
 	nb := neighbourhood()
 	c.Exhaustive("all ordered pairs over the boundary neighbourhoods", int64(len(nb)*len(nb)))
 	c.Floor("concurrent.calls", 20000)
-	c.Stream("concurrent-callers", c.N(3, 150), func(i int, r *gen.Rand) {
-		c.Concurrent("PTS arithmetic", 8, 4000, r, func(q *gen.Rand) string {
+	c.Stream("concurrent-callers", c.N(8, 200), func(i int, r *gen.Rand) {
+		c.Concurrent("PTS arithmetic", 8, 250000, r, func(q *gen.Rand) string {
 			p := q.Uint64() & maxV
 			if q.Chance(3) {
 				p = maxV - q.Uint64()%(2*window)
 			}
 			d := 1 + q.Uint64()%window
+			if q.Bool() {
+				// a handful of values that every goroutine keeps asking about: the same question from two callers at once
+				p = []uint64{0, 1, lower - 1, lower, upper, upper + 1, maxV, maxV - 1}[q.Intn(8)]
+				d = []uint64{1, 2, window}[q.Intn(3)]
+			}
 			P := gots.PTS(p)
 			s := P.Add(gots.PTS(d))
 			wrapped := p+d >= mod
